@@ -12,6 +12,7 @@ from __future__ import annotations
 
 import hashlib
 import json
+import re
 import os
 import shutil
 import subprocess
@@ -101,7 +102,14 @@ def run(tier: str) -> int:
     cube = corpus.option_cube(tier)
     from harness import typo
     from harness.props import c09
-    for name, text in corpus.RICH + [("q:" + n, t) for n, t in typo.QUOTE_DOCS] + [("e:" + n, t) for n, t in c09.DOT_DOCS]:
+    from harness.props import c10
+    hdocs = [("h:" + h.split("\n")[0], h + "\n\nbody text\n") for h in c10.HEADINGS]
+    # paragraphs written on ONE source line whose first pass wraps next to a paired tag (the pair is split by the Markdoc workaround:
+    # that must happen in the first pass, not in the second)
+    tdocs = [("t:pair_late", "Some text here that goes on and on for a while, yes it does. And more {% field %}{% /field %} after and the rest of it is here too.\n\n"
+                             "- The first sentence of this list item is fairly ordinary prose text. The second has <!-- f --><!-- /f --> in it and continues a bit more.\n\n"
+                             "> A quoted paragraph that is long enough that it has to wrap and then has a {# n #}{# /n #} pair and {{ v }}{{ /v }} too, at the end of it.\n")]
+    for name, text in corpus.RICH + [("q:" + n, t) for n, t in typo.QUOTE_DOCS] + [("e:" + n, t) for n, t in c09.DOT_DOCS] + hdocs + tdocs:
         for o in cube:
             jobs.append(("R", name, text, o))
     results = pmap(eval_pair, jobs, chunksize=100)
@@ -177,6 +185,23 @@ def attribute(chk: Check, fails) -> None:
 T_INFO: dict = {}
 
 
+PAIR_SPLIT = re.compile(r"(\{%[^\n]*?%\}|\{#[^\n]*?#\}|\{\{[^\n]*?\}\}|<!--[^\n]*?-->)\n[ >]*(\{% */[^\n]*?%\}|\{# */[^\n]*?#\}|\{\{ */[^\n]*?\}\}|<!-- */[^\n]*?-->)")
+
+
+def split_pair_blocks(m) -> bool:
+    b1, b2 = m["pass1"].split("\n\n"), m["pass2"].split("\n\n")
+    if len(b1) != len(b2):
+        return False
+    differing = [(x, y) for x, y in zip(b1, b2) if x != y]
+    if not differing:
+        return False
+    for x, _ in differing:
+        hits = [mm for mm in PAIR_SPLIT.finditer(x) if (mm.group(1) + mm.group(2)) in m["src"]]
+        if not hits:
+            return False
+    return True
+
+
 def finding_for(m) -> str | None:
     """C02 failures that are consequences of an open C01 finding: the first pass already changed the document
     structure (so the second pass formats a different document) and the finding's trigger is present."""
@@ -188,6 +213,12 @@ def finding_for(m) -> str | None:
         diffs = [(a, b) for a, b in zip(m["pass1"], m["pass2"]) if a != b]
         if diffs and all(a in fam and b in fam[a] for a, b in diffs):
             return "D37"
+    # D40 (C06's finding) seen from C02: the first pass wraps a one-line paragraph and then splits an authored adjacent tag pair
+    # on a continuation line (Markdoc workaround); the new line break is tag-adjacent, hence significant for the second pass, which
+    # re-fills / re-indents that paragraph.  Attributed only if EVERY block that differs between the passes holds such a split pair
+    # that is adjacent in the source.
+    if split_pair_blocks(m):
+        return "D40"
     try:
         changed = project.flat(project.parse_marko(m["src"])) != project.flat(project.parse_marko(m["pass1"]))
     except BaseException:  # noqa: BLE001
